@@ -1,9 +1,149 @@
-"""C19 facts, all from the AST of /repo/glom/cli.py: the `spec_format` branch structure of
+"""C19 facts, from the AST of /repo/glom/cli.py: the `spec_format` branch structure of
 mw_get_target (which parser each branch hands the spec text to, the first-character test), the
 `target_format` → loader table of mw_handle_target, the flag defaults, the shape of glom_cli, the
 call / reference graph of the module with the guard (`spec_format == …` branch) of every edge,
-every call that receives the spec text."""
+every call that receives the spec text; the exception classes the `except` around
+`load_func(target_text)` names (per target format) and the handlers around every read of text
+(spec file, target file, standard input).
+
+Plus one fact that is NOT from glom's source: `cliLoaderRaises`, the PROBE — the real loaders of
+this interpreter (json.loads, ast.literal_eval, yaml.safe_load, tomllib.loads) run on the
+catalogue `MALFORMED` of malformed texts, grouped by the class they raise, with that class's MRO.
+The handler fact is checked against it (Spec/C19.lean `catchWF`).  Trusted: the catalogue reaches
+every class a loader can raise on text (it was grown by reading the loaders' constructors and
+error paths; it is not a proof); the harness (harness/props/c19.py) draws its malformed-target
+stream from the same catalogue."""
 import ast
+import json
+
+
+# ------------------------------------------------------------------ the probe
+def _deep(open_, n, mid='', close=''):
+    return open_ * n + mid + close * n
+
+
+BIG = '9' * 5000          # longer than sys.int_max_str_digits: int(str) raises a plain ValueError
+
+# loader kind -> malformed (or merely unusual) texts; WHAT each raises is found out by running it
+# (the comments say what CPython 3.12 / PyYAML 6 raise; nothing relies on them)
+MALFORMED = {
+    'json': [
+        # JSONDecodeError
+        '{"a": ', '[1,]', '{"a": 1} x', 'nul', '"\\ud800', '-', '"\\x"', '{1: 2}', "{'a': 1}", '\x00',
+        '{"a": "\n"}', '{"a": 1,}', '[1 2]', '{"a" 1}', '\ufeff{"a": 1}', '{"a": 1}}', 'NaN x', '01', '1.', '.5', '+1',
+        '"\\u12"', "'a'", '[1, 2', '{"a": [1, {"b": }]}', 'tru', '{"a": Infinit}',
+        # ValueError (digit limit)
+        BIG, '[' + BIG + ']', '{"a": -' + BIG + '}', '{"a": {"b": [1, ' + BIG + ']}}',
+        # RecursionError
+        _deep('[', 6000), _deep('[', 6000, '1', ']'), _deep('{"a":', 6000), _deep('{"a":', 6000, '1', '}'),
+        '{"a": ' + _deep('[', 100000) + '}',
+    ],
+    'python-literal': [
+        # SyntaxError (IndentationError among them)
+        '{"a": ', '1 +', '"\\x"', "b'\\x'", "'\\N{nope}'", '0777', '\x00', '"a" "b" 1', '1_', '0x', "'" * 3, '[1,\n',
+        '\ufeff1', '1;2', 'x = 1', '`1`', '$', '1 2', "b'\u00e9'", '1\n 2', '(1', '{1: }', "{'a': 1,, }", '[1 2]', "'a",
+        'a b', BIG, '[' + BIG + ']',
+        # TypeError (unhashable key / set element)
+        '{[1]: 2}', '{{1}: 2}', '{"a": {{1}: 2}}', '{1, [2]}', '{[]}', '{{}: 1}', '{None: 1, []: 2}',
+        "{'a': [{(1, []): 2}]}", '{{1: 2}: 3}', '[{(1, {2}): 1}]', '{({}, 1): 2}',
+        # ValueError (malformed node or string)
+        'f()', 'a', '1 + "a"', '-"a"', '1 + 2', '{**{}}', '[*a]', '1 if 2 else 3', 'lambda: 1', 'set([[]])', '{1: 2}[1]',
+        '(1).real', "'a' * 10", '1 - 2', '--1', '+"a"', 'print', 'Ellipsis', '1 < 2', 'not 1', '~1', '[1][0]',
+        "{'a': open}", '[x for x in ()]', "f'{1}'", 'None.x', '{1: 2, **{}}', 'True and 1', '1j + 1',
+        # SyntaxError (too many nested parentheses)
+        _deep('[', 100), _deep('(', 300, '1', ')'), _deep('[', 6000),
+        # MemoryError (parser stack)
+        _deep('[1,', 200, '1', ']'), _deep('{1:', 150, '1', '}'), _deep('-', 5000, '1'), _deep('(1,', 400, '1', ')'),
+        # RecursionError
+        '1' + '+1' * 5000, _deep('-', 100000, '1'), '1' + '-1' * 100000, _deep('- ', 3000, 'a'),
+        _deep('not ', 3000, '1'), _deep('~', 100000, '1'),
+    ],
+    'yaml-safe': [
+        # ParserError
+        'a: [1', '%YAML 3.0\n---\na', 'a: |+2\n x', '- a\nb: 1', '&a &a ', '{a: 1', '[1, 2', 'a: {b: [}',
+        # ScannerError
+        'a:\t1', '\ta: 1', 'a: 1\n b: 2', '"\\x"', '"\\uZZZZ"', "'a", '"a', 'a: b: c', '@a', '`a', 'a: @',
+        # ComposerError
+        'a: *b', 'a: &b 1\nc: *d', '--- a\n--- b', '*a',
+        # ReaderError
+        '\x00', '\ufffe', 'a: \x07',
+        # ConstructorError
+        '!!python/object/apply:os.getcwd []', '!!binary "\u00e9"', '? [1]\n: 2', '{[1]: 2}', '{{a: 1}: 2}',
+        '? {a: 1}\n: 2', '!!set {[1]: null}', '!!omap [1]', '!!pairs [1]', '<<: 1', 'a: {<<: [1]}', '!!map [1]',
+        '!!seq {a: 1}', '!!str [1]', '!a b', '!!python/name:os.getcwd', '!!python/tuple [1]', '= ', 'a: =',
+        '!!int [1]', '!!float {a: 1}', '!!timestamp [1]', '!!bool [1]', '!!pairs [{a: 1, b: 2}]',
+        # ValueError (scalar constructors: int / float / timestamp)
+        'a: 2001-14-45', 'a: 2001-02-30', '2001-12-14t21:59:43.10-25:00', 'a: 2001-12-14 99:99:99', 'a: !!int "x"',
+        'a: !!float "x"', 'a: 0x_', 'a: !!int "0x"', 'a: !!int "1:2:x"', '!!float ".inf."', '!!int "0b2"',
+        '!!float "1:x"', '2001-01-01 01:01:01 +25:00', '0000-01-01', '2001-01-01 24:00:00', '2001-01-01 00:00:60',
+        '- 2001-13-01', '{a: [2001-02-31]}', 'a: ' + BIG, '!!int "' + BIG + '"',
+        # AttributeError (timestamp constructor on a non-matching scalar)
+        'a: !!timestamp "x"', '!!timestamp "2001-01-01 1:1:1 +99:99"', '[!!timestamp ""]',
+        # KeyError (bool constructor)
+        '!!bool "x"', 'a: !!bool ""', '- !!bool maybe',
+        # IndexError (int / float constructor on an empty or sign-only scalar)
+        'a: !!int ""', '!!int "_"', '!!int "-"', '!!float "_"', 'a: !!float ""', '!!int "+"',
+        # RecursionError
+        _deep('- ', 3000, 'a'), _deep('{"a":', 5000), _deep('? ', 3000, 'a'),
+    ],
+    'toml': [
+        # TOMLDecodeError
+        'a = ', 'a = 1\na = 2', '[a]\n[a]', 'a = [1', 'a = 2001-14-45', 'a = 2001-02-30', 'a = 99:99:99',
+        'a = 2001-01-01T25:00:00', 'a = 2001-01-01T00:00:00+25:00', 'a = 0000-01-01', 'a = "\\x"', 'a = "\\ud800"',
+        'a = "\\U00110000"', 'a = 0x', 'a = 1__0', 'a = +', '\x00', 'a = "\n"', 'a.b = 1\na = 2',
+        'a = {b = 1}\na.c = 2', '[[a]]\n[a]', 'a = 1 b = 2', '= 1', 'a', '[a', '[]', 'a = inf_', 'a = 0777', 'a = 1.',
+        'a = tru', "a = '''", 'a = 2001-01-01T00:00:60', 'a = 1979-05-27T07:32:00-24:00', '{"a": 1}', 'a: 1',
+        # ValueError (digit limit)
+        'a = ' + BIG, 'a = [' + BIG + ']', 'a = {b = -' + BIG + '}', 'a = 0x' + 'f' * 5000,
+        # RecursionError
+        'a = ' + _deep('[', 3000), 'a = ' + _deep('[', 3000, '1', ']'), 'a = ' + _deep('{b = ', 3000),
+        'a = ' + _deep('{b = ', 3000, '1', '}'),
+    ],
+}
+
+
+def loaders():
+    out = {'json': json.loads, 'python-literal': ast.literal_eval}
+    try:
+        import yaml
+        out['yaml-safe'] = yaml.safe_load
+    except ImportError:
+        pass
+    try:
+        import tomllib
+        out['toml'] = tomllib.loads
+    except ImportError:
+        try:
+            import tomli
+            out['toml'] = tomli.loads
+        except ImportError:
+            pass
+    return out
+
+
+def mro_names(cls):
+    return [c.__name__ for c in cls.__mro__ if c is not object]
+
+
+def probe():
+    """{kind: {class name: {'mro': [...], 'texts': [texts that raise it]}}}; accepted texts under 'OK'"""
+    out = {}
+    for kind, f in loaders().items():
+        groups = {}
+        for t in MALFORMED.get(kind, []):
+            try:
+                f(t)
+                cls, mro = 'OK', []
+            except BaseException as e:      # a loader may raise anything: that is what is being measured
+                cls, mro = type(e).__name__, mro_names(type(e))
+            g = groups.setdefault(cls, {'mro': mro, 'texts': []})
+            g['texts'].append(t)
+        out[kind] = groups
+    return out
+
+
+def short(name):
+    return name.split('.')[-1]
 
 KINDS = {'json.loads': 'json', 'yaml.safe_load': 'yaml-safe', 'tomllib.loads': 'toml', 'tomli.loads': 'toml',
          'tomli.loads|tomllib.loads': 'toml', 'ast.literal_eval': 'python-literal',
@@ -38,6 +178,85 @@ def fmt_values(test):
     return []
 
 
+def assign_pairs(node):
+    """(target name, value node) of `a = v` and of `a, b = v, w`"""
+    t = node.targets[0]
+    if isinstance(t, ast.Name):
+        return [(t.id, node.value)]
+    if isinstance(t, ast.Tuple) and isinstance(node.value, ast.Tuple) and len(t.elts) == len(node.value.elts):
+        return [(a.id, v) for a, v in zip(t.elts, node.value.elts) if isinstance(a, ast.Name)]
+    return []
+
+
+def raises_usage(handler):
+    last = handler.body[-1] if handler.body else None
+    return isinstance(last, ast.Raise) and last.exc is not None and U(last.exc).startswith('UsageError(')
+
+
+def classify_open(call):
+    """what an `open(X …)` call reads: 'spec-file' / 'target-file' / '?…'"""
+    if not (isinstance(call, ast.Call) and isinstance(call.func, ast.Name) and call.func.id == 'open' and call.args):
+        return '?' + U(call)[:40]
+    mode = call.args[1] if len(call.args) > 1 else next((k.value for k in call.keywords if k.arg == 'mode'), None)
+    if mode is not None and not (isinstance(mode, ast.Constant) and mode.value in ('r', 'rt')):
+        return '?open-mode ' + U(mode)
+    return {'spec_file': 'spec-file', 'target_file': 'target-file'}.get(U(call.args[0]), '?open ' + U(call.args[0])[:30])
+
+
+def read_sites(funcs, exc_names):
+    """every place where the module reads text: (kind, function, classes named by the enclosing
+    handlers that raise UsageError)"""
+    sites = set()
+
+    def walk(fn, node, names, withs):
+        if isinstance(node, ast.Try):
+            hn = []
+            for h in node.handlers:
+                if raises_usage(h):
+                    hn += [short(n) for n in exc_names(h.type)]
+            for b in node.body:
+                walk(fn, b, names + hn, withs)
+            for h in node.handlers:
+                for b in h.body:
+                    walk(fn, b, names, withs)
+            for b in node.orelse + node.finalbody:
+                walk(fn, b, names, withs)
+            return
+        if isinstance(node, ast.With):
+            w2 = dict(withs)
+            for item in node.items:
+                walk(fn, item.context_expr, names, withs)
+                if isinstance(item.optional_vars, ast.Name):
+                    w2[item.optional_vars.id] = item.context_expr
+            for b in node.body:
+                walk(fn, b, names, w2)
+            return
+        if isinstance(node, ast.Call):
+            f = node.func
+            kind = None
+            if isinstance(f, ast.Name) and f.id == 'open':
+                kind = classify_open(node)
+            elif isinstance(f, ast.Attribute) and f.attr in ('read', 'readline', 'readlines', 'read_text'):
+                recv = f.value
+                if U(recv) == 'sys.stdin':
+                    kind = 'stdin'
+                elif isinstance(recv, ast.Name) and recv.id in withs:
+                    kind = classify_open(withs[recv.id])
+                elif isinstance(recv, ast.Call):
+                    kind = classify_open(recv)
+                else:
+                    kind = '?' + U(recv)[:40]
+            if kind:
+                sites.add((kind, fn, tuple(sorted(set(names)))))
+        for c in ast.iter_child_nodes(node):
+            walk(fn, c, names, withs)
+
+    for name, fn in funcs.items():
+        for st in fn.body:
+            walk(name, st, [], {})
+    return sorted(sites)
+
+
 def extract(ctx):
     P = ctx['P']
     tree = ctx['src_tree']('cli.py')
@@ -69,8 +288,10 @@ def extract(ctx):
         # a dangerous callable merely referenced (aliased, stored in `load_func`, …) counts as called
         if isinstance(node, (ast.Name, ast.Attribute)) and isinstance(node.ctx, ast.Load) and U(node) in DANGEROUS:
             edges.add((fn, U(node), guard))
-        if isinstance(node, ast.Assign) and U(node.targets[0]) == 'load_func':
-            edges.add((fn, U(node.value), guard))
+        if isinstance(node, ast.Assign):
+            for tname, val in assign_pairs(node):
+                if tname == 'load_func':
+                    edges.add((fn, U(val), guard))
         for c in ast.iter_child_nodes(node):
             visit(fn, c, guard)
 
@@ -138,6 +359,7 @@ def extract(ctx):
     loaders = []
     empty_first = False
     load_catch = []
+    branch_vars = {}
     ht = funcs.get('mw_handle_target')
     if ht is None:
         P.add('mw_handle_target not found')
@@ -154,9 +376,11 @@ def extract(ctx):
         else:
             node = chain[0]
             while isinstance(node, ast.If):
-                assigns = [n for n in ast.walk(ast.Module(body=node.body, type_ignores=[]))
-                           if isinstance(n, ast.Assign) and U(n.targets[0]) == 'load_func']
-                names = sorted({U(a.value) for a in assigns})
+                pairs = [pr for n in ast.walk(ast.Module(body=node.body, type_ignores=[]))
+                         if isinstance(n, ast.Assign) for pr in assign_pairs(n)]
+                names = sorted({U(v) for t, v in pairs if t == 'load_func'})
+                for fmt in fmt_values(node.test):
+                    branch_vars[fmt] = pairs
                 if not names:
                     P.add('mw_handle_target: branch %s assigns no load_func' % U(node.test))
                 # tomllib / tomli are the same parser under two names
@@ -174,7 +398,20 @@ def extract(ctx):
         if (len(tries) == 1 and [U(x) for x in tries[0].body] == ['target = load_func(target_text)']
                 and len(tries[0].handlers) == 1 and isinstance(tries[0].handlers[0].body[0], ast.Raise)
                 and U(tries[0].handlers[0].body[0].exc).startswith('UsageError(')):
-            load_catch = ctx['exc_names'](tries[0].handlers[0].type)
+            htype = tries[0].handlers[0].type
+            for fmt, _k in loaders:
+                pairs = branch_vars.get(fmt, [])
+                if isinstance(htype, ast.Name) and any(t == htype.id for t, _ in pairs):
+                    # `except load_errors:` with `load_errors` assigned next to `load_func` on each branch
+                    names = []
+                    for t, v in pairs:
+                        if t == htype.id:
+                            names += [short(n) for n in ctx['exc_names'](v)]
+                    load_catch.append((fmt, sorted(set(names))))
+                elif isinstance(htype, ast.Name) and any(t == htype.id for ps in branch_vars.values() for t, _ in ps):
+                    load_catch.append((fmt, []))      # the variable is not bound on this branch
+                else:
+                    load_catch.append((fmt, [short(n) for n in ctx['exc_names'](htype)]))
         else:
             P.add('mw_handle_target: `try: target = load_func(target_text) except …: raise UsageError` not found')
 
@@ -241,6 +478,30 @@ def extract(ctx):
     if m is not None:
         main_shape = ' ; '.join(U(s) for s in m.body)
 
+    # ---- every read of text and its handler
+    sites = read_sites(funcs, ctx['exc_names'])
+    read_catch = {}
+    for k in ('spec-file', 'target-file', 'stdin'):
+        ns = sorted({n for kk, _f, n in sites if kk == k})
+        if not ns:
+            P.add('cli.py: no read of the %s found' % k)
+            read_catch[k] = []
+        elif len(ns) > 1:
+            P.add('cli.py: the reads of the %s sit under different handlers %r' % (k, ns))
+            read_catch[k] = []
+        else:
+            read_catch[k] = list(ns[0])
+    for kk, f, _n in sites:
+        if kk.startswith('?'):
+            P.add('cli.py: unrecognised read %s in %s' % (kk, f))
+
+    # ---- the probe (not from glom's source: the installed loaders on the catalogue)
+    raises = []
+    for k, groups in sorted(probe().items()):
+        for cls, g in sorted(groups.items()):
+            if cls != 'OK':
+                raises.append((k, cls, g['mro']))
+
     S, LS = 'String', 'List String'
     defs = [
         ('cliFunctions', LS, fnames),
@@ -255,11 +516,17 @@ def extract(ctx):
         ('cliTargetDefault', S, str(defaults.get('--target-format', '?'))),
         ('cliIndentDefault', 'Int', defaults.get('--indent', -1) if isinstance(defaults.get('--indent', -1), int) else -1),
         ('cliEmptyTargetFirst', 'Bool', empty_first),
-        ('cliLoadCatch', LS, load_catch),
+        ('cliLoadCatch', 'List (String × List String)', load_catch),
+        ('cliLoaderRaises', 'List (String × String × List String)', raises),
+        ('cliReadSites', 'List (String × String × List String)', [(k, f, list(n)) for k, f, n in sites]),
+        ('cliSpecReadCatch', LS, read_catch['spec-file']),
+        ('cliTargetReadCatch', LS, read_catch['target-file']),
+        ('cliStdinReadCatch', LS, read_catch['stdin']),
         ('cliMiddlewares', LS, middlewares),
         ('cliShape', LS, cli_shape),
         ('cliMainShape', S, main_shape),
         ('cliMwSteps', LS, mw_steps),
     ]
     return [('C19Facts', 'glom/cli.py: spec_format branches, target loaders, flag defaults, glom_cli shape, '
-             'call/reference graph with guards, calls receiving the spec text', defs)]
+             'call/reference graph with guards, calls receiving the spec text, handler classes around the '
+             'loader and around every read of text; PROBE of the installed loaders (cliLoaderRaises)', defs)]
